@@ -58,6 +58,8 @@ def parse_module(path):
                 mod['harnesses'].append(kv)
             elif body.startswith('hole '):
                 mod['holes'].append(body[5:].strip())
+            elif body.startswith('needs '):
+                mod.setdefault('needs', []).extend(body[6:].split())
             elif body.startswith('feature '):
                 mod['features'].append(body[8:].strip())
     return mod
